@@ -121,7 +121,7 @@ func (ex *Exec) dagVertexIface(st *State, d *Object, key *Term) Value {
 			}
 			// graph invariant (obligation "only-canonical-amounts-admitted" at every AddVertexByID site):
 			// the spice of a stored transaction is canonical
-			if sv.T.Field(i).Name() == "Transaction" {
+			if sv.T.Field(i).Name() == "Transaction" && !(ex.entryCt != nil && ex.entryCt.EstablishesGraphInv) {
 				if tv, ok := sv.F[i].(*StructV); ok {
 					for j := 0; j < tv.T.NumFields(); j++ {
 						if tv.T.Field(j).Name() == "Spice" {
